@@ -33,6 +33,7 @@ where
             Err(Error(e)) => {
                 #[cfg(feature = "autocomplete")]
                 args.swap_comps(&mut clone);
+                args.env_used |= clone.env_used;
                 if e.can_catch() {
                     match (self.fallback)() {
                         Ok(ok) => Ok(ok),
@@ -496,6 +497,7 @@ where
             Err(Error(e)) => {
                 #[cfg(feature = "autocomplete")]
                 args.swap_comps(&mut clone);
+                args.env_used |= clone.env_used;
                 if e.can_catch() {
                     Ok(self.value.clone())
                 } else {
